@@ -212,6 +212,9 @@ type RecReader struct {
 	Served [][]byte // each Read call's bytes (since last Reset)
 	Total  int
 	Fail   bool // when set, Read returns an error
+	// MaxChunk > 0 makes every Read a short read of at most MaxChunk bytes (io.Reader allows that; callers that need
+	// a full buffer have to use io.ReadFull)
+	MaxChunk int
 }
 
 func NewRecReader(seed int64) *RecReader {
@@ -223,6 +226,9 @@ func (r *RecReader) Read(p []byte) (int, error) {
 	defer r.mu.Unlock()
 	if r.Fail {
 		return 0, io.ErrUnexpectedEOF
+	}
+	if r.MaxChunk > 0 && len(p) > r.MaxChunk {
+		p = p[:r.MaxChunk]
 	}
 	for i := range p {
 		p[i] = byte(r.src.Intn(256))
